@@ -11,6 +11,12 @@ import (
 	"github.com/aergoio/aergo/v2/types"
 )
 
+func TestMain(m *testing.M) {
+	code := m.Run()
+	Cleanup()
+	os.Exit(code)
+}
+
 func TestVerifSmoke(t *testing.T) {
 	if os.Getenv("VERIF_SMOKE") == "" {
 		t.Skip()
@@ -18,7 +24,7 @@ func TestVerifSmoke(t *testing.T) {
 	db.VerifReset()
 	a1, a2 := NewAccount("a1", 1), NewAccount("a2", 1)
 	bp := NewBPKey("bp0", 1)
-	o := Options{Dir: "/vn/smoke", Seed: 1, Public: false, Coinbase: nil,
+	o := Options{Dir: ScratchBase() + "/smoke", Seed: 1, Public: false, Coinbase: nil,
 		Balances: map[string]string{a1.B58(): "1000000000000000000000", a2.B58(): "5"}, BPs: []string{types.IDB58Encode(bp.ID)}, Timestamp: 1600000000000000000}
 	n, err := Start(o)
 	if err != nil {
@@ -47,7 +53,7 @@ func TestVerifSmoke(t *testing.T) {
 	t.Logf("journal units: %d", db.VerifJournalLen())
 	// validator node
 	o2 := o
-	o2.Dir = "/vn/smoke2"
+	o2.Dir = ScratchBase() + "/smoke2"
 	v, err := Start(o2)
 	if err != nil {
 		t.Fatal(err)
